@@ -55,3 +55,17 @@ Example C10_example :
   let ops := [OSetChunk 2] ++ concat (repeat [ORequest 3; OAdvance 3] 13) in
   nlen (buf (fst (run (reader_init {| prebuf := []; data := nrepeat 7 40; events := [] |}) ops))) <= 3 * 2 + 4.
 Proof. vm_compute. discriminate. Qed.
+
+(* ------------------------------------------------------------------ *)
+(* The window the DIMACS parsers need (LookProofs.v, view level): at every intermediate point vi of a next_clause call
+   that returns an item, the look-ahead vreq - vcur is at most what it was at the start or the length of what the call
+   consumes (the item's lines) plus one — it depends on the item, not on how much input came before.  PARTIAL: the link
+   from this window to valid_len of the concrete reader *during* the call (the W of C10_history_bound) is not a theorem;
+   the counting-allocator oracle measures it. *)
+From Flussab Require Import Prog ProgProofs Cnf CnfProofs Hoare CnfSafe Look LookProofs.
+
+Theorem C10_clause_window : forall fuel k st lr v vi item st' lr' v',
+  K fuel lr v -> aruns_via (next_clause fuel k st lr) v vi (ADone ((Ok (Some item), st'), lr') v') ->
+  vreq vi - vcur vi <= N.max (vreq v - vcur v) (vcur v' - vcur v + 1).
+Proof. exact next_clause_window. Qed.
+Print Assumptions C10_clause_window.
